@@ -254,17 +254,40 @@ func ruleChanHandshake(w *World, r *Report) {
 					}
 				}
 			}
-			for _, sl := range slots {
-				if a, ok := sl.(*ssa.Alloc); ok {
-					for _, ref := range *a.Referrers() {
-						if u, ok := ref.(*ssa.UnOp); ok && u.Referrers() != nil {
-							for _, r2 := range *u.Referrers() {
-								if _, isRet := r2.(*ssa.Return); isRet {
-									escapes = true
+			// ... also through local slots (a variable captured by a closure, a result slot of a function with defers)
+			var loadsEscape func(a *ssa.Alloc, depth int) bool
+			loadsEscape = func(a *ssa.Alloc, depth int) bool {
+				if depth > 3 {
+					return false
+				}
+				for _, ref := range *a.Referrers() {
+					u, ok := ref.(*ssa.UnOp)
+					if !ok || u.Referrers() == nil {
+						continue
+					}
+					for _, r2 := range *u.Referrers() {
+						switch y := r2.(type) {
+						case *ssa.Return:
+							return true
+						case *ssa.Store:
+							if y.Val != ssa.Value(u) {
+								continue
+							}
+							if a2, ok := y.Addr.(*ssa.Alloc); ok {
+								if loadsEscape(a2, depth+1) {
+									return true
 								}
+							} else if _, local := addrRoot(y.Addr).(*ssa.Alloc); !local {
+								return true
 							}
 						}
 					}
+				}
+				return false
+			}
+			for _, sl := range slots {
+				if a, ok := sl.(*ssa.Alloc); ok && loadsEscape(a, 0) {
+					escapes = true
 				}
 			}
 			if escapes {
